@@ -946,7 +946,7 @@ func (p *Prog) serveLoop(prop string) *serveResult {
 					if tk && !stale {
 						setb(st, evStreamChecked)
 					}
-				case isCallTo(c, fIsHead):
+				case isCallTo(c, fIsHead) || (c.Call.StaticCallee() != nil && c.Call.StaticCallee().Name() == "IsHead" && (recvTypeName(c.Call.StaticCallee()) == "RequestHeader" || recvTypeName(c.Call.StaticCallee()) == "header") && strings.Contains(fieldPath(c.Call.Args[0]), "Request")):
 					if st.Has(evHandler) {
 						setb(st, evHeadTested)
 						if tk {
